@@ -169,9 +169,27 @@ def realise(w):
 
 # ---------------------------------------------------------------- the search pattern itself (regular-language clause)
 PARTIES = {"plaintiff": "Baz", "defendant": "Foo Bar"}
+# second configuration: names the name-validity rule rejects (a disallowed multi-word name, an abbreviation) next
+# to one valid name - the search patterns may only look for the valid one
+PARTIES_INVALID = {"plaintiff": "Baz", "defendant": "United States", "resolved_case_name_short": "Corp."}
+CONFIGS = {"valid_names": PARTIES, "with_invalid_names": PARTIES_INVALID}
 
 
-def captured_pattern():
+def valid_names(parties):
+    """the names of a configuration that pass the repository's own name-validity rule (taken as given)."""
+    from eyecite.utils import is_valid_name
+
+    return [v for v in parties.values() if is_valid_name(v)]
+
+
+def spec_src(parties, sep):
+    import re as _re
+
+    return "|".join(sep.join(_re.escape(w) for w in v.split()) for v in valid_names(parties))
+
+
+def captured_pattern(parties=None):
+    parties = parties or PARTIES
     """run the real find_reference_citations_from_markup (interpreted) on a concrete document with a stub at
     re.finditer that records the pattern and flags the code searches the markup with."""
     import re
@@ -191,8 +209,9 @@ def captured_pattern():
         return []
 
     it.stubs[re.finditer] = finditer
-    plain = "Baz v. Foo Bar, 1 U.S. 1. Later Baz."
-    markup = "<em>Baz</em> v. Foo Bar, 1 U.S. 1. Later <i>Baz</i>."
+    P_, D_ = parties["plaintiff"], parties["defendant"]
+    plain = f"{P_} v. {D_}, 1 U.S. 1. Later Baz."
+    markup = f"<em>{P_}</em> v. {D_}, 1 U.S. 1. Later <i>Baz</i>."
 
     class Doc:
         pass
@@ -202,13 +221,14 @@ def captured_pattern():
     doc.plain_to_markup, doc.markup_to_plain = AN.SpanUpdater(plain, markup), AN.SpanUpdater(markup, plain)
     s = plain.index("1 U.S. 1")
     c = M.FullCaseCitation(M.CitationToken("1 U.S. 1", s, s + 8, groups={"volume": "1", "reporter": "U.S.", "page": "1"}), 0)
-    for k, v in PARTIES.items():
+    for k, v in parties.items():
         setattr(c.metadata, k, v)
     outs = list(eng.explore(lambda: it.call(F.find_reference_citations_from_markup, (doc, [c]), {})))
     return got, outs
 
 
-def captured_pincite_pattern():
+def captured_pincite_pattern(parties=None):
+    parties = parties or PARTIES
     """the pattern extract_pincited_reference_citations compiles for the same citation."""
     import re
 
@@ -230,23 +250,30 @@ def captured_pincite_pattern():
         return P()
 
     it.stubs[re.compile] = compile_
-    plain = "Baz v. Foo Bar, 1 U.S. 1. Later Baz at 5."
+    plain = f"{parties['plaintiff']} v. {parties['defendant']}, 1 U.S. 1. Later Baz at 5."
     s = plain.index("1 U.S. 1")
     c = M.FullCaseCitation(M.CitationToken("1 U.S. 1", s, s + 8, groups={"volume": "1", "reporter": "U.S.", "page": "1"}), 0)
-    for k, v in PARTIES.items():
+    for k, v in parties.items():
         setattr(c.metadata, k, v)
     outs = list(eng.explore(lambda: it.call(F.extract_pincited_reference_citations, (c, plain), {})))
     return got, outs
 
 
 def pincite_pattern_clause(rep):
-    """every string the name-pincite pattern can match contains one of the citation's party names."""
+    for cfg, parties in CONFIGS.items():
+        _pincite_pattern_clause(rep, cfg, parties)
+
+
+def _pincite_pattern_clause(rep, cfg, parties):
+    """every string the name-pincite pattern can match contains one of the citation's party names that pass
+    the name-validity rule."""
     import time
 
     from vf import rex
 
-    got, outs = captured_pincite_pattern()
-    rep.sections["pincite_pattern"] = {"parties": PARTIES, "captured": got}
+    got, outs = captured_pincite_pattern(parties)
+    SEC = "pincite_pattern_" + cfg
+    rep.sections[SEC] = {"parties": parties, "valid": valid_names(parties), "captured": got}
     if len(got) != 1 or len(outs) != 1 or outs[0][0] != "ok":
         rep.inconc(f"pincite pattern clause: expected one re.compile call, got {got} / {outs[:1]}")
         return
@@ -275,7 +302,7 @@ def pincite_pattern_clause(rep):
         pp = rex.parse(pattern, flags)
         drop_boundaries(pp)
         R = rex.tr(pp, pp.state.flags)
-        spec = rex.translate(r"Foo Bar|Baz", 0)
+        spec = rex.translate(spec_src(parties, " "), 0)
     except rex.Unsupported as ex:
         rep.inconc(f"pincite pattern clause: pattern not translatable: {ex}")
         return
@@ -283,7 +310,7 @@ def pincite_pattern_clause(rep):
     verdict, w = rex.solve_in(z3.Intersect(R, z3.Complement(z3.Concat(full, spec, full))), timeout_ms=120000, seed=common.seed())
     rep.queries += 1
     rep.solver_s += time.time() - t0
-    rep.sections["pincite_pattern"].update({"verdict": verdict, "seconds": round(time.time() - t0, 2)})
+    rep.sections[SEC].update({"verdict": verdict, "seconds": round(time.time() - t0, 2)})
     if verdict == "unsat":
         rep.oblige(1)
         return
@@ -296,30 +323,37 @@ def pincite_pattern_clause(rep):
     import eyecite.models as M
     import re
 
-    doc = f"{PARTIES['plaintiff']} v. {PARTIES['defendant']}, 1 U.S. 1 (1999). Later {w} again."
+    doc = f"{parties['plaintiff']} v. {parties['defendant']}, 1 U.S. 1 (1999). Later {w} again."
     rep.replays += 1
     try:
         cs = get_citations(doc)
     except Exception as ex:
         rep.inconc(f"pincite pattern clause: replay raised {ex!r}")
         return
-    bad = [doc[r.span()[0] : r.span()[1]] for r in cs if isinstance(r, M.ReferenceCitation) and not re.search(r"Foo Bar|Baz", doc[r.span()[0] : r.span()[1]])]
+    bad = [doc[r.span()[0] : r.span()[1]] for r in cs if isinstance(r, M.ReferenceCitation) and not re.search(spec_src(parties, " "), doc[r.span()[0] : r.span()[1]])]
     if bad:
-        rep.violation(f"get_citations({doc!r}) returns reference citation(s) whose text {bad} contains no party name of the citation (pattern {pattern!r}, flags {flags})", {"kind": "text", "text": doc})
+        rep.violation(f"get_citations({doc!r}) returns reference citation(s) whose text {bad} contains no valid party name {valid_names(parties)} of the citation (pattern {pattern!r}, flags {flags})", {"kind": "text", "text": doc, "spec": spec_src(parties, " ")})
     else:
         rep.spurious += 1
         rep.inconc(f"pincite pattern clause: witness {w!r} did not reproduce")
 
 
 def pattern_clause(rep):
+    for cfg, parties in CONFIGS.items():
+        _pattern_clause(rep, cfg, parties)
+
+
+def _pattern_clause(rep, cfg, parties):
     """every string the markup search pattern can match contains, case-sensitively, one of the citation's
-    party names (its words separated by whitespace) - inclusion of regular languages, decided by z3."""
+    party names that pass the name-validity rule (its words separated by whitespace) - inclusion of regular
+    languages, decided by z3."""
     import time
 
     from vf import rex
 
-    got, outs = captured_pattern()
-    rep.sections["markup_pattern"] = {"parties": PARTIES, "captured": got}
+    got, outs = captured_pattern(parties)
+    SEC = "markup_pattern_" + cfg
+    rep.sections[SEC] = {"parties": parties, "valid": valid_names(parties), "captured": got}
     if len(got) != 1 or len(outs) != 1 or outs[0][0] != "ok":
         rep.inconc(f"markup pattern clause: expected one re.finditer call on the concrete document, got {got} / {outs[:1]}")
         return
@@ -327,7 +361,7 @@ def pattern_clause(rep):
     t0 = time.time()
     try:
         R = rex.translate(pattern, flags)
-        spec = rex.translate(r"Foo\s+Bar|Baz", 0)
+        spec = rex.translate(spec_src(parties, r"\s+"), 0)
     except rex.Unsupported as ex:
         rep.inconc(f"markup pattern clause: pattern not translatable: {ex}")
         return
@@ -335,7 +369,7 @@ def pattern_clause(rep):
     verdict, w = rex.solve_in(z3.Intersect(R, z3.Complement(z3.Concat(full, spec, full))), timeout_ms=120000, seed=common.seed())
     rep.queries += 1
     rep.solver_s += time.time() - t0
-    rep.sections["markup_pattern"].update({"verdict": verdict, "seconds": round(time.time() - t0, 2)})
+    rep.sections[SEC].update({"verdict": verdict, "seconds": round(time.time() - t0, 2)})
     if verdict == "unsat":
         rep.oblige(1)
         return
@@ -348,7 +382,7 @@ def pattern_clause(rep):
     from eyecite import clean_text, get_citations
     import eyecite.models as M
 
-    doc = f"<p>{PARTIES['plaintiff']} v. {PARTIES['defendant']}, 1 U.S. 1 (1999). Later {w} again.</p>"
+    doc = f"<p>{parties['plaintiff']} v. {parties['defendant']}, 1 U.S. 1 (1999). Later {w} again.</p>"
     rep.replays += 1
     try:
         cs = get_citations(markup_text=doc, clean_steps=["html", "all_whitespace"])
@@ -358,9 +392,9 @@ def pattern_clause(rep):
         return
     import re
 
-    bad = [plain[r.span()[0] : r.span()[1]] for r in cs if isinstance(r, M.ReferenceCitation) and not re.search(r"Foo\s+Bar|Baz", plain[r.span()[0] : r.span()[1]])]
+    bad = [plain[r.span()[0] : r.span()[1]] for r in cs if isinstance(r, M.ReferenceCitation) and not re.search(spec_src(parties, r"\s+"), plain[r.span()[0] : r.span()[1]])]
     if bad:
-        rep.violation(f"get_citations(markup_text={doc!r}) returns reference citation(s) whose text {bad} contains no party name of the citation (pattern {pattern!r}, flags {flags})", {"kind": "markup", "markup": doc})
+        rep.violation(f"get_citations(markup_text={doc!r}) returns reference citation(s) whose text {bad} contains no valid party name {valid_names(parties)} of the citation (pattern {pattern!r}, flags {flags})", {"kind": "markup", "markup": doc, "spec": spec_src(parties, r"\s+")})
     else:
         rep.spurious += 1
         rep.inconc(f"markup pattern clause: witness {w!r} did not reproduce")
